@@ -116,9 +116,13 @@ class Reg(Logic):
     def structureName(self):
         msg = 'Reg{}'.format(self.q.getWidth())
         
+        # the width of d is part of the interface of the module
+        if (self.d.getWidth() != self.q.getWidth()): msg += '_d{}'.format(self.d.getWidth())
+        
         if not(self.r is None): msg += 'R'
         if not(self.e is None): msg += 'E'
-        if not(self.reset_value == 0): msg += '_v{}'.format(self.reset_value)
+        if (self.reset_value > 0): msg += '_v{}'.format(self.reset_value)
+        if (self.reset_value < 0): msg += '_vm{}'.format(-self.reset_value) # '-' is not legal in an identifier
         
         return msg
             
